@@ -33,7 +33,7 @@ ASSUMPTIONS = ["interleavings of the auth cache are owned at the lock / timer / 
 
 @st.composite
 def engine_case(draw):
-    return {
+    inp = {
         "declare_header": draw(st.sampled_from([None, "optional", "required"])),
         "declare_query": draw(st.sampled_from([None, "optional", "required"])),
         "declare_cookie": draw(st.sampled_from([None, "optional", "required"])),
@@ -48,8 +48,15 @@ def engine_case(draw):
         "seed": draw(st.integers(0, 1000)),
         # names that the output sanitiser treats as credentials: redaction is for what is printed, never for what is sent
         "names": draw(st.sampled_from(["plain", "sensitive"])),
+        # credentials supplied by an auth provider registered on the schema: a provider class that writes a header, or a
+        # `requests` auth object (set_from_requests); only drawn into runs without --auth / -H Authorization (see below)
+        "provider": draw(st.sampled_from([None, None, None, None, "class", "requests-basic", "requests-custom"])),
         "unique_inputs": draw(st.booleans()),
     }
+    if inp["provider"]:
+        # one credential source per run: precedence between several is not specified
+        inp.update(auth=None, secured=None, ignored_auth=False, headers={k: v for k, v in inp["headers"].items() if k != "Authorization"})
+    return inp
 
 
 NAMES = {"plain": {"X-Tenant": "X-Tenant", "ver": "ver", "sid": "sid"}, "sensitive": {"X-Tenant": "X-Api-Token", "ver": "api_key", "sid": "session"}}
@@ -101,7 +108,36 @@ def check_engine(ctx: Ctx, inp) -> None:
     N_TENANT, N_VER, N_SID = names["X-Tenant"], names["ver"], names["sid"]
     cfg = {"phases": inp["phases"], "modes": inp["modes"], "workers": inp["workers"], "seed": inp["seed"], "max_examples": 5, "stateful_step_count": 4, "checks": checks, "no_shrink": True,
            "network": {"headers": inp["headers"], "auth": inp["auth"]}, "override": inp["override"] or None, "unique_inputs": bool(inp.get("unique_inputs"))}
-    record = engine_run.run_engine(build_doc(inp), cfg, server)
+    provider = inp.get("provider")
+    if inp["auth"] or "Authorization" in inp["headers"] or inp.get("secured") or inp["ignored_auth"]:
+        provider = None  # precedence between several credential sources is not specified; the probes of ignored_auth strip credentials
+
+    def configure(schema):
+        import requests.auth
+
+        if provider == "class":
+
+            @schema.auth()
+            class Provider:
+                def get(self, case, context):
+                    return "PROVIDER-TOKEN"
+
+                def set(self, case, data, context):
+                    case.headers = {**(case.headers or {}), "Authorization": f"Bearer {data}"}
+
+        elif provider == "requests-basic":
+            schema.auth.set_from_requests(requests.auth.HTTPBasicAuth("prov", "pw"))
+        elif provider == "requests-custom":
+
+            class TokenAuth(requests.auth.AuthBase):
+                def __call__(self, r):
+                    r.headers["Authorization"] = "Bearer PROVIDER-TOKEN"
+                    return r
+
+            schema.auth.set_from_requests(TokenAuth())
+        return schema
+
+    record = engine_run.run_engine(build_doc(inp), cfg, server, configure=configure if provider else None)
     if record.exception:
         ctx.case(classes=["engine-exception"])
         ctx.disagree("engine:exception:" + record.exception.split(":")[0], f"engine run raised {record.exception}", input=inp)
@@ -140,6 +176,10 @@ def check_engine(ctx: Ctx, inp) -> None:
             got = req.header(name)
             if got != want:
                 ctx.disagree(f"engine:configured-header-missing-or-overwritten:{'declared' if declares.get(name) else 'undeclared'}", f"{where}: header {name} is {got!r}, configured {want!r}", input=inp, request=req.as_json())
+        if provider:
+            want_auth = "Basic " + base64.b64encode(b"prov:pw").decode() if provider == "requests-basic" else "Bearer PROVIDER-TOKEN"
+            if req.header("Authorization") != want_auth:
+                ctx.disagree(f"engine:auth-provider-data-missing:{provider}:{'with-body' if req.body else 'without-body'}", f"{where}: Authorization is {req.header('Authorization')!r}, the registered auth provider supplies {want_auth!r}", input=inp, request=req.as_json())
         if expected_auth and "Authorization" not in inp["headers"]:
             got = req.header("Authorization")
             if got != expected_auth:
@@ -162,7 +202,7 @@ def check_engine(ctx: Ctx, inp) -> None:
             if req.path != "/users/777":
                 ctx.disagree("engine:path-override-not-applied", f"{where}: path override id=777 not applied", input=inp, request=req.as_json())
     nontrivial = n_main > 0 and (any(declares.values()) or phases_seen & {"COVERAGE", "STATEFUL_TESTING"})
-    ctx.case(nontrivial=inp if nontrivial else None, classes=[f"phase={p}" for p in sorted(phases_seen)] + [f"names={inp.get('names', 'plain')}", f"unique_inputs={bool(inp.get('unique_inputs'))}", f"workers={inp['workers']}", f"ignored_auth={inp['ignored_auth']}", f"secured={inp['secured']}", "linked-requests" if linked else "no-linked-requests", "derived-probes" if derived else "no-derived-probes"], sample={"input": inp, "requests": n_main, "derived": len(derived)})
+    ctx.case(nontrivial=inp if nontrivial else None, classes=[f"phase={p}" for p in sorted(phases_seen)] + [f"names={inp.get('names', 'plain')}", f"unique_inputs={bool(inp.get('unique_inputs'))}", f"provider={provider}", f"workers={inp['workers']}", f"ignored_auth={inp['ignored_auth']}", f"secured={inp['secured']}", "linked-requests" if linked else "no-linked-requests", "derived-probes" if derived else "no-derived-probes"], sample={"input": inp, "requests": n_main, "derived": len(derived)})
 
 
 # ---- owned schedule for the auth cache -----------------------------------------------------------------------
@@ -299,15 +339,89 @@ def check_schedule(ctx: Ctx, inp) -> None:
                 return
 
 
+# ---- providers registered through the public API, with a clock of our own ------------------------------------------
+
+
+@st.composite
+def registered_case(draw):
+    steps = []
+    for _ in range(draw(st.integers(2, 10))):
+        steps.append([draw(st.sampled_from([0, 0, 1, 30, 100, 299, 301, 600, 3599, 3601])), draw(st.sampled_from(["GET /a", "POST /a", "GET /b"]))])
+    return {"refresh_interval": draw(st.sampled_from([60, 300, 600, 3600, 7200])), "keyed": draw(st.sampled_from([False, "str", "int"])), "scope": draw(st.sampled_from(["schema", "global"])), "steps": steps}
+
+
+def check_registered(ctx: Ctx, inp) -> None:
+    """`@schema.auth(refresh_interval=N, cache_by_key=...)`: the token is fetched at most once per key and N seconds."""
+    import schemathesis
+    from schemathesis import auths
+    from schemathesis.auths import AuthContext
+
+    auths.GLOBAL_AUTH_STORAGE.unregister()
+    doc = {"openapi": "3.0.2", "info": {"title": "t", "version": "1"}, "paths": {"/a": {"get": {"responses": {"200": {"description": "ok"}}}, "post": {"responses": {"200": {"description": "ok"}}}}, "/b": {"get": {"responses": {"200": {"description": "ok"}}}}}}
+    schema = schemathesis.openapi.from_dict(doc)
+    schema.base_url = "http://127.0.0.1:1"
+    clock = [1000.0]
+    fetches: list = []
+    keyed = inp["keyed"]
+
+    def key_of(case, context):
+        label = case.operation.label
+        return label if keyed == "str" else sum(map(ord, label))
+
+    class Provider:
+        def get(self, case, context):
+            fetches.append((clock[0], key_of(case, None) if keyed else "-"))
+            return f"tok{len(fetches)}"
+
+        def set(self, case, data, context):
+            case.headers = {**(case.headers or {}), "Authorization": f"Bearer {data}"}
+
+    kwargs = {"refresh_interval": inp["refresh_interval"]}
+    if keyed:
+        kwargs["cache_by_key"] = key_of
+    storage = schema.auth if inp["scope"] == "schema" else auths.GLOBAL_AUTH_STORAGE
+    try:
+        (schema.auth(**kwargs) if inp["scope"] == "schema" else schemathesis.auth(**kwargs))(Provider)
+
+        def set_timer(p):  # the cache reads its clock from a field that exists "to simplify testing"
+            seen = set()
+            while p is not None and id(p) not in seen:
+                seen.add(id(p))
+                if hasattr(p, "timer"):
+                    p.timer = lambda: clock[0]
+                p = getattr(p, "provider", None)
+
+        for p in storage.providers:
+            set_timer(p)
+        for dt, label in inp["steps"]:
+            clock[0] += dt
+            path, method = label.split(" ")[1], label.split(" ")[0]
+            operation = schema[path][method]
+            case = operation.Case()
+            storage.set(case, AuthContext(operation=operation, app=None))
+    finally:
+        auths.GLOBAL_AUTH_STORAGE.unregister()
+    ctx.case(nontrivial=inp if len(fetches) != len(inp["steps"]) or keyed else None, classes=[f"refresh={inp['refresh_interval']}", f"keyed-{keyed}" if keyed else "plain", f"scope={inp['scope']}", f"fetches={min(len(fetches), 6)}"], sample={"input": inp, "fetches": fetches})
+    by_key: dict = {}
+    for tm, key in fetches:
+        by_key.setdefault(key, []).append(tm)
+    for key, times in by_key.items():
+        for a, b in zip(times, times[1:]):
+            if b - a < inp["refresh_interval"]:
+                ctx.disagree("auth-registered:token-fetched-twice-within-the-configured-refresh-interval:" + ("keyed" if keyed else "plain"), f"key {key!r}: fetched at t={a} and again at t={b}, refresh_interval={inp['refresh_interval']}", input=inp)
+                return
+
+
 SUBS = [
     Sub("engine", collect=True, fn=check_engine, strategy=engine_case, quick=(16, 10), thorough=(16, 400), shrink_quick=False, timeout_quick=600, timeout_thorough=3400),
+    Sub("auth_registered", fn=check_registered, strategy=registered_case, quick=(4, 400), thorough=(16, 6000), timeout_quick=300, timeout_thorough=3000),
     Sub("auth_cache", fn=check_schedule, strategy=schedule_case, quick=(8, 300), thorough=(16, 8000), timeout_quick=600, timeout_thorough=3400),
 ]
-FLOOR = {"engine": 100, "auth_cache": 1000, "auth_cache:contended": 200}
+FLOOR = {"auth_registered": 1000, "engine": 100, "auth_cache": 1000, "auth_cache:contended": 200}
 
 MANIFEST = {
     "category": "exploration",
     "technique": "Hypothesis-generated credential / override configurations run through the real engine against a recording loopback API; owned-schedule exploration (Hypothesis draws the interleaving) of the auth-token cache",
-    "text": "Engine level: drawn combinations of configured headers (incl. Authorization), basic auth and query / header / cookie / path overrides over documents whose operations declare same-named parameters (optional, required or not at all) and optionally a security requirement are run in all phases (1-3 workers, both modes, with and without ignored_auth); every received request that is not a check-derived probe must carry the user's values. Cache level: CachingAuthProvider and KeyedCachingAuthProvider are driven by 2-4 threads whose interleaving at the injected lock, timer and provider boundaries is drawn by Hypothesis while the clock advances; the underlying provider may be called at most once per key and refresh interval.",
+    "text": "Engine level: drawn combinations of configured headers (incl. Authorization), basic auth and query / header / cookie / path overrides over documents whose operations declare same-named parameters (optional, required or not at all) and optionally a security requirement are run in all phases (1-3 workers, both modes, with and without ignored_auth); every received request that is not a check-derived probe must carry the user's values. Cache level: CachingAuthProvider and KeyedCachingAuthProvider are driven by 2-4 threads whose interleaving at the injected lock, timer and provider boundaries is drawn by Hypothesis while the clock advances; the underlying provider may be called at most once per key and refresh interval. Registered level: providers registered through schema.auth() / schemathesis.auth() with a drawn refresh_interval and cache_by_key (string or integer keys) are called along drawn timelines with a clock of our own: at most one fetch per key and configured interval. The engine runs also draw credentials supplied by a registered provider class or a `requests` auth object (set_from_requests) and require them on every request, with or without a body.",
     "note": "Interleavings inside the cache are owned only at the injected boundaries; auth providers registered through schemathesis.auth() at several scopes are covered by C19, not here.",
 }
